@@ -27,6 +27,7 @@ Fixpoint shape (e : fx) : list nat :=
   | FQuadPert f _ _ _ => 13 :: shape f
   | FInfConv f g => 14 :: shape f ++ shape g
   | FDefConj f => 15 :: shape f
+  | FBreg q => shape q
   | FSep2 _ f g => 16 :: shape f ++ shape g
   end%nat.
 
